@@ -514,7 +514,9 @@ def passOf (cfg : Cfg) (g : Option Group) (r : Rec) : Bool :=
   match g with | some g => evalGroup (evalLeaf cfg r.body) g | none => true
 
 def labOf (cfg : Cfg) (g : Option Group) (r : Rec) : List String :=
-  match g with | some g => labelsOf (evalLeaf cfg r.body) g | none => []
+  match g with
+  | some g => if g.hasLabels then labelsOf (evalLeaf cfg r.body) g else []
+  | none => []
 
 theorem emit_eq (cfg : Cfg) (g lg : Option Group) (m : Nat) (rows : List Rec) :
     emit cfg g lg m rows = capMax m ((rows.filter (passOf cfg g)).map (fun r => (r.key, labOf cfg lg r))) := rfl
@@ -620,15 +622,19 @@ def rowsB (cfg : Cfg) (store : List Rec) (q : Query) (hints : List Hint) : List 
 theorem filter_passNone (cfg : Cfg) (l : List Rec) : l.filter (passOf cfg none) = l := by
   rw [List.filter_eq_self]; intro a _; rfl
 
+/-- the group the bucket route evaluates per candidate -/
+def residOf (cfg : Cfg) (full : Group) (residual : Option Group) : Option Group :=
+  if cfg.labelReattach && full.hasLabels then some full else residual
+
 /-- `bucketExec`, written out -/
 theorem bucketExec_eq (cfg : Cfg) (store : List Rec) (q : Query) (g : Group) (hints : List Hint) (residual : Option Group) :
     bucketExec cfg store q g hints residual =
       if cfg.bucketPagingAfterFilter then
-        capMax q.maxResults ((pageOf q.from_ q.limit ((rowsB cfg store q hints).filter (passOf cfg residual))).map
-          (fun r => (r.key, labOf cfg (if cfg.labelReattach then some g else residual) r)))
+        capMax q.maxResults ((pageOf q.from_ q.limit ((rowsB cfg store q hints).filter (passOf cfg (residOf cfg g residual)))).map
+          (fun r => (r.key, labOf cfg (residOf cfg g residual) r)))
       else
-        capMax q.maxResults (((pageOf q.from_ q.limit (rowsB cfg store q hints)).filter (passOf cfg residual)).map
-          (fun r => (r.key, labOf cfg (if cfg.labelReattach then some g else residual) r))) := by
+        capMax q.maxResults (((pageOf q.from_ q.limit (rowsB cfg store q hints)).filter (passOf cfg (residOf cfg g residual))).map
+          (fun r => (r.key, labOf cfg (residOf cfg g residual) r))) := by
   unfold bucketExec
   simp only [emit_eq]
   split
@@ -649,5 +655,116 @@ theorem scanRoute_eq (cfg : Cfg) (store : List Rec) (q : Query) :
   split
   · rw [filter_passNone]; rfl
   · rfl
+
+
+/-! ### F. labels of a residual -/
+
+theorem hasLabelsL_eq (ss : List Group) : hasLabelsL ss = ss.any Group.hasLabels := by
+  induction ss with
+  | nil => simp [hasLabelsL]
+  | cons g gs ih => simp [hasLabelsL, ih]
+
+theorem hasLabels_mk (o : Bool) (ls : List Leaf) (ss : List Group) :
+    (Group.mk o ls ss).hasLabels = (ls.any (fun l => l.label != "") || ss.any Group.hasLabels) := by
+  simp [Group.hasLabels, hasLabelsL_eq]
+
+theorem firstIndexable_mem (cfg : Cfg) : ∀ (ls : List Leaf) (h : Hint) (rest : List Leaf),
+    firstIndexable cfg ls = some (h, rest) → ∀ l ∈ rest, l ∈ ls := by
+  intro ls
+  induction ls with
+  | nil => intro h rest he; simp [firstIndexable] at he
+  | cons x tl ih =>
+    intro h rest he l hl
+    simp only [firstIndexable] at he
+    cases hi : indexableHint cfg x with
+    | some h0 =>
+      simp only [hi, Option.some.injEq, Prod.mk.injEq] at he
+      obtain ⟨_, e2⟩ := he
+      subst e2
+      simp [hl]
+    | none =>
+      simp only [hi] at he
+      cases hr : firstIndexable cfg tl with
+      | none => simp [hr] at he
+      | some p =>
+        obtain ⟨h1, rest1⟩ := p
+        simp only [hr, Option.some.injEq, Prod.mk.injEq] at he
+        obtain ⟨_, e2⟩ := he
+        subst e2
+        rcases List.mem_cons.mp hl with rfl | hl'
+        · simp
+        · simp [ih h1 rest1 hr l hl']
+
+theorem firstUnionSub_mem (cfg : Cfg) : ∀ (ss : List Group) (hs : List Hint) (rest : List Group),
+    firstUnionSub cfg ss = some (hs, rest) → ∀ s ∈ rest, s ∈ ss := by
+  intro ss
+  induction ss with
+  | nil => intro hs rest he; simp [firstUnionSub] at he
+  | cons x tl ih =>
+    intro hs rest he s hsm
+    simp only [firstUnionSub] at he
+    cases hu : unionOf cfg x with
+    | some hs0 =>
+      simp only [hu, Option.some.injEq, Prod.mk.injEq] at he
+      obtain ⟨_, e2⟩ := he
+      subst e2
+      simp [hsm]
+    | none =>
+      simp only [hu] at he
+      cases hr : firstUnionSub cfg tl with
+      | none => simp [hr] at he
+      | some p =>
+        obtain ⟨h1, rest1⟩ := p
+        simp only [hr, Option.some.injEq, Prod.mk.injEq] at he
+        obtain ⟨_, e2⟩ := he
+        subst e2
+        rcases List.mem_cons.mp hsm with rfl | hs'
+        · simp
+        · simp [ih h1 rest1 hr s hs']
+
+/-- the residual of an AND plan has labels only if the filter has -/
+theorem residual_hasLabels (cfg : Cfg) (g : Group) (hints : List Hint) (res : Group)
+    (hp : planFilter cfg g = .and hints res) (hl : res.hasLabels = true) : g.hasLabels = true := by
+  obtain ⟨o, ls, ss⟩ := g
+  unfold planFilter at hp
+  by_cases hem : (Group.mk o ls ss).isEmpty = true
+  · simp [hem] at hp
+  · simp only [hem, Bool.false_eq_true, if_false] at hp
+    cases ho : o
+    · subst ho
+      simp only [Group.isOr, Bool.false_eq_true, if_false, planAnd, Group.leaves, Group.subs] at hp
+      cases hf : firstIndexable cfg ls with
+      | some p =>
+        obtain ⟨h, rest⟩ := p
+        simp only [hf, Plan.and.injEq] at hp
+        obtain ⟨_, e2⟩ := hp
+        subst e2
+        rw [hasLabels_mk] at hl ⊢
+        simp only [Bool.or_eq_true, List.any_eq_true] at hl ⊢
+        rcases hl with ⟨l, hlm, hll⟩ | h2
+        · exact Or.inl ⟨l, firstIndexable_mem cfg ls h rest hf l hlm, hll⟩
+        · exact Or.inr h2
+      | none =>
+        simp only [hf] at hp
+        cases hu : firstUnionSub cfg ss with
+        | none => simp [hu] at hp
+        | some p =>
+          obtain ⟨hs, rest⟩ := p
+          simp only [hu, Plan.and.injEq] at hp
+          obtain ⟨_, e2⟩ := hp
+          subst e2
+          rw [hasLabels_mk] at hl ⊢
+          simp only [Bool.or_eq_true, List.any_eq_true] at hl ⊢
+          rcases hl with h1 | ⟨s, hsm, hsl⟩
+          · exact Or.inl h1
+          · exact Or.inr ⟨s, firstUnionSub_mem cfg ss hs rest hu s hsm, hsl⟩
+    · subst ho
+      simp only [Group.isOr, if_true] at hp
+      unfold planOr at hp
+      split at hp
+      · cases hp
+      · split at hp
+        · split at hp <;> cases hp
+        · cases hp
 
 end Hv.Query
